@@ -93,12 +93,31 @@ NOT_YET = "static rules for this property are designed (DESIGN.md section 4) but
 
 ALL = ["C%02d" % i for i in range(1, 21)]
 
+def complete(pid, text):
+    """Appends the statement of every rule present in the evidence of the last run that the hand-written text
+    does not name, so the claim lists all the clauses decided (the evidence is the authority on what ran)."""
+    import re
+    p = os.path.join(HERE, "evidence", pid + ".json")
+    if not os.path.exists(p):
+        return text
+    rules = json.load(open(p)).get("coverage", {}).get("rules", [])
+    extra = []
+    for r in rules:
+        rid = r["id"].split(".", 1)[1]
+        if rid == "X" or re.search(r"\b%s\b" % re.escape(rid), text):
+            continue
+        extra.append("(%s) %s" % (rid, r.get("text", "").rstrip(".")))
+    if extra:
+        text = text.rstrip() + " Further clauses decided, as stated by the rules of the last run: " + "; ".join(extra) + "."
+    return text
+
 def main():
     checks = []
     for pid in ALL:
         if pid not in CLAIMED:
             continue
-        c = CLAIMED[pid]
+        c = dict(CLAIMED[pid])
+        c["text"] = complete(pid, c["text"])
         checks.append({
             "property_id": pid,
             "quick_cmd": "./check.sh %s quick" % pid,
